@@ -231,11 +231,13 @@ package types
 //@ vars types.ValidateProvidersCanEmpty: providers=[]github.com/cosmos/cosmos-sdk/types.AccAddress#0 err=error#0
 //@ props C18 C09
 //@ ensures at_most_ten: err == NoErr ==> len(providers) <= 10
+//@ ensures [C18] no_provider_listed_twice: err == NoErr ==> (forall i Int, j Int :: 0 <= i && i < j && j < len(providers) ==> providers[i] != providers[j])
 
 //@ func ValidateProvidersNoEmpty
 //@ vars types.ValidateProvidersNoEmpty: providers=[]github.com/cosmos/cosmos-sdk/types.AccAddress#0 err=error#0
 //@ props C18 C09
 //@ ensures between_one_and_ten: err == NoErr ==> 0 < len(providers) && len(providers) <= 10
+//@ ensures [C18] no_provider_listed_twice: err == NoErr ==> (forall i Int, j Int :: 0 <= i && i < j && j < len(providers) ==> providers[i] != providers[j])
 
 // pure helpers whose result is not used by any property: nothing is assumed about them except that they touch no module state
 //@ func checkDuplicateProviders
@@ -287,10 +289,12 @@ package types
 //@ props C19
 //@ loop 0 invariant seen: 0 <= iter && iter <= len(data.Definitions)
 //@ loop 1 invariant seen: 0 <= iter && iter <= len(data.Bindings)
+//@ loop 1 invariant [C19] bindings_so_far_satisfy_the_record_rules: forall j Int :: {data.Bindings[j]} 0 <= j && j < iter ==> bindRecOK(data.Bindings[j])
 //@ loop 2 invariant [C19] visited_keys_are_addresses: forall k Str :: {range_visited[k]} range_visited[k] ==> bech32Err(k) == NoErr
 //@ loop 3 invariant [C19] visited_contexts_are_importable: forall k Str :: {range_visited[k]} range_visited[k] ==> hexErr(k) == NoErr &&
 //@      mapGet_Map_Str_RequestContext(data.RequestContexts, k).State == 1 && mapGet_Map_Str_RequestContext(data.RequestContexts, k).BatchState == 1
 //@ ensures [C19] withdraw_address_keys_are_bech32_addresses_as_exported: err == NoErr ==> (forall k Str :: {mapHas_Map_Str_Bytes(data.WithdrawAddresses, k)} mapHas_Map_Str_Bytes(data.WithdrawAddresses, k) ==> bech32Err(k) == NoErr)
+//@ ensures [C19,C15] accepted_bindings_satisfy_the_record_rules: err == NoErr ==> (forall j Int :: {data.Bindings[j]} 0 <= j && j < len(data.Bindings) ==> bindRecOK(data.Bindings[j]))
 //@ ensures [C19] contexts_are_paused_with_hex_ids: err == NoErr ==> (forall k Str :: {mapHas_Map_Str_RequestContext(data.RequestContexts, k)} mapHas_Map_Str_RequestContext(data.RequestContexts, k) ==> hexErr(k) == NoErr &&
 //@      mapGet_Map_Str_RequestContext(data.RequestContexts, k).State == 1 && mapGet_Map_Str_RequestContext(data.RequestContexts, k).BatchState == 1)
 
@@ -622,3 +626,26 @@ package types
 //@ ensures [C20,C04,C02,C14] accepts_only_legal_parameters: result == NoErr ==> p.MaxRequestTimeout > 0 && p.MinDepositMultiple > 0 && coinsValid(p.MinDeposit) &&
 //@      0 <= p.SlashFraction && p.SlashFraction <= decOne && 0 <= p.ServiceFeeTax && p.ServiceFeeTax < decOne &&
 //@      p.ComplaintRetrospect > 0 && p.ArbitrationTimeLimit > 0 && p.TxSizeLimit > 0
+
+// ---------------------------------------------------------------- the module's own validity rules of stored records (C15, C19)
+//@ func (ServiceBinding).Validate
+//@ vars (types.ServiceBinding).Validate: binding=github.com/irismod/service/types.ServiceBinding#0 err=error#0 err=error#1 err=error#2 err=error#3 err=error#4 err=error#5
+//@ props C15 C19 C20
+//@ theory coins keys
+//@ ensures [C15,C19] accepted_bindings_have_a_provider_an_owner_a_valid_deposit_and_a_positive_qos: result == NoErr ==>
+//@      len(binding.Provider) > 0 && len(binding.Owner) > 0 && coinsValid(binding.Deposit) && !isAnyNegative(binding.Deposit) && binding.QoS > 0 &&
+//@      jsonValid(s2b(binding.Options))
+
+//@ func (ServiceDefinition).Validate
+//@ vars (types.ServiceDefinition).Validate: svcDef=github.com/irismod/service/types.ServiceDefinition#0 err=error#0 err=error#1 err=error#2 err=error#3 err=error#4
+//@ props C15 C19 C20
+//@ theory coins keys
+//@ ensures [C15,C19] accepted_definitions_have_an_author: result == NoErr ==> len(svcDef.Author) > 0
+
+//@ func (RequestContext).Validate
+//@ vars (types.RequestContext).Validate: rc=github.com/irismod/service/types.RequestContext#0 err=error#0 err=error#1 err=error#2 err=error#3
+//@ props C19 C20 C18
+//@ theory coins keys
+//@ ensures [C19,C18] accepted_contexts_have_a_consumer_one_to_ten_distinct_providers_and_a_valid_fee_cap: result == NoErr ==>
+//@      len(rc.Consumer) > 0 && 0 < len(rc.Providers) && len(rc.Providers) <= 10 && coinsValid(rc.ServiceFeeCap) &&
+//@      (forall i Int, j Int :: 0 <= i && i < j && j < len(rc.Providers) ==> rc.Providers[i] != rc.Providers[j])
